@@ -35,7 +35,7 @@ ASSUMPTIONS = [
     'virtual children are bound to real child processes by the byte-level conformance cases of C07',
 ]
 BOUND = {
-    'quick': 'k=2 children: preemption bound 2 (1 with 8-byte pipes), N in 1..3, 3 collectors, 2 pipe capacities, 3 script pairs (one with a spawn failure); k=3: bound 0, N in 1..4 (bound 1 for the start-dependency script at N=2,3); worlds: 6 shapes x <=1 outcome (8 kinds incl. fd-2 noise) x -j1..-j4 x -v0..2',
+    'quick': 'k=2 children: preemption bound 2 (1 with 8-byte pipes), N in 1..3, 3 collectors, 2 pipe capacities, 4 script pairs (two with a spawn failure: last / first layer); k=3: bound 0, N in 1..4 (bound 1 for the start-dependency script at N=2,3); worlds: 6 shapes x <=1 outcome (8 kinds incl. fd-2 noise) x -j1..-j4 x -v0..2',
     'thorough': 'k=2: preemption bound 3 (2 with 8-byte pipes); k=3: bound 2; k=4: bound 1, N in 2..5; worlds with <=2 outcomes',
 }
 CHUNK = 1
@@ -78,13 +78,14 @@ def configs(tier):
         {'La': script(b'La', REPORT_A, tail=True), 'Lb': script(b'Lb', REPORT_B)},
         {'La': script(b'La', REPORT_B, dots=False), 'Lb': script(b'Lb', REPORT_A, tail=True)},
         {'La': script(b'La', REPORT_C), 'Lb': 'oserror'},
+        {'La': 'oserror', 'Lb': script(b'Lb', REPORT_C, tail=True)},
     ]
     b2 = 2 if tier == 'quick' else 3
     for pi, sc in enumerate(pairs):
         for N in (1, 2, 3):
             for v in (0, 2):
                 for cap in (8, 64):
-                    if pi == 2 and cap == 8:
+                    if pi >= 2 and cap == 8:
                         continue
                     out.append({'k': 2, 'scripts': sc, 'N': N, 'v': v, 'cap': cap,
                                 'bound': b2 if cap == 64 else b2 - 1, 'id': 'k2p%d' % pi})
@@ -94,6 +95,8 @@ def configs(tier):
         {'La': script(b'La', REPORT_A), 'Lb': script(b'Lb', REPORT_C, dots=False), 'Lc': script(b'Lc', REPORT_A)},
         # La only proceeds once Lc has been started; Lb finishes at once
         {'La': script(b'La', REPORT_A, wait='Lc'), 'Lb': script(b'Lb', REPORT_A, dots=False), 'Lc': script(b'Lc', REPORT_C, dots=False)},
+        # the middle layer cannot be spawned
+        {'La': script(b'La', REPORT_A, dots=False), 'Lb': 'oserror', 'Lc': script(b'Lc', REPORT_C)},
     ]
     for ti, sc in enumerate(trip):
         for N in (1, 2, 3, 4):
@@ -148,6 +151,7 @@ def setup_worker():
     S._RUNNER_FILE = R.__file__
 
 
+BANNER_RE = re.compile(rb'\n\*{70}\n.*?\n\*{70}\n\n', re.S)
 NOISE_RE = re.compile(rb'(?:\[Parallel tests running in [^\n]*:\n  |\.+| LAYER FINISHED|\]\n)*')
 
 
@@ -346,12 +350,13 @@ def explore(cfg, collect):
                     V('more_than_N_children_alive', '%d children alive with -j%d' % (s.live_children(), N), names)
                     break
                 printed = ex.out.value()
-                core = strip_keepalive(printed, ref_blocks) if cfg['v'] > 1 and N > 1 else printed
+                # an error banner (spawn failure) is legitimate output of a
+                # worker thread; everything else must be the block sequence
+                nob = BANNER_RE.sub(b'', printed)
+                core = strip_keepalive(nob, ref_blocks) if cfg['v'] > 1 and N > 1 else nob
                 if not ref_out.startswith(core):
-                    # an error banner is legitimate output for a spawn failure
-                    if b'Could not' not in printed and b'Incomplete report' not in printed:
-                        V('output_not_in_sequential_order', 'printed so far %r is not a prefix of the sequential output %r' % (printed, ref_out), names)
-                        break
+                    V('output_not_in_sequential_order', 'printed so far %r is not a prefix of the sequential output %r' % (printed, ref_out), names)
+                    break
                 for a in acts:
                     if isinstance(a, S.TActor) and a.done and a.name.startswith('spawn') and a.name not in fin:
                         fin.append(a.name)
@@ -364,7 +369,7 @@ def explore(cfg, collect):
                     e = collections.Counter(x[0] for x in ex.errors)
                     term = (core == ref_out, ex.ret, tuple(sorted(f.items())), tuple(sorted(e.items())))
                     terminals[term] += 1
-                    if core != ref_out and b'Could not' not in printed:
+                    if core != ref_out:
                         V('final_output_differs', 'printed %r, sequential reference %r' % (printed, ref_out), names)
                     if ex.ret != ref_ran or f != ref_f or e != ref_e:
                         V('results_differ_from_sequential', 'ran=%s failures=%s errors=%s; children reported ran=%s failures=%s errors=%s' % (ex.ret, dict(f), dict(e), ref_ran, dict(ref_f), dict(ref_e)), names)
